@@ -45,9 +45,11 @@ func cryptoBlockAsmX4(rk *uint32, dst, src *byte)
 func cryptoBlockAsmX8(rk *uint32, dst, src *byte)
 
 func (sm4 *sm4CipherAsm) Encrypt(dst, src []byte) {
+	checkBlock(dst, src)
 	cryptoBlockAsm(&sm4.enc[0], &dst[0], &src[0])
 }
 
 func (sm4 *sm4CipherAsm) Decrypt(dst, src []byte) {
+	checkBlock(dst, src)
 	cryptoBlockAsm(&sm4.dec[0], &dst[0], &src[0])
 }
